@@ -20,3 +20,182 @@ Print Assumptions C03_first_error_survives.
 Theorem C03_rejects : forall c e, ill_typed_top c e -> exists l k, snd (check c e) = Some (l, k).
 Proof. exact rejects. Qed.
 Print Assumptions C03_rejects.
+
+(* ------------------------------------------------------------------------------------------
+   The SOUNDNESS half.  Definitions: Ty/Sound.v (value typing has_ty, the assumptions env_ok on
+   the environment value and fenv_ok on the environment functions, the decidable carve-out
+   in_scope); proofs: Ty/SoundProofs.v.
+
+   res_ok te ftab nn t r  :=  match r with Done v _ => has_ty te ftab nn v t     (dynamic type = reported type)
+                                          | Stop er _ _ => is_type_err er = false (never a type reason) end
+   nn = true: the environment holds no nil pointer to a struct (then x.f / x.m() through *T are in
+   scope); nn = false: nil pointers are values of type *T and those shapes are carved out. *)
+From Coq Require Import Permutation.
+Require Import X.Ty.Sound X.Ty.SoundProofs.
+
+(* the statement for EVERY accepted expression *)
+Definition C03_sound_full_statement : Prop := sound_full_statement.
+
+(* It is FALSE of the pinned tree (the recorded C03 findings): one replayable witness per finding,
+   each accepted by check, outside in_scope, and failing for a type reason / yielding a value of
+   another type than reported, in the universe SWit of Ty/SoundProofs.v
+   (env{ I int; F float64; S string; B bool; AI []int; MI map[string]int; AA []interface{}; In Inner;
+        P *Inner (nil); Inc func(int) int; FS func(string) string; M MyInt; PI *int }). *)
+Theorem C03_sound_full_statement_refuted : ~ C03_sound_full_statement.
+Proof. exact sound_full_refuted. Qed.
+Print Assumptions C03_sound_full_statement_refuted.
+
+Theorem C03_sound_refuted_literal_retype :      (* FS(1), FS func(string) string *)
+  in_scope SWit.c false SWit.w_literal_retype = false /\ SWit.unsound_at SWit.w_literal_retype.
+Proof. exact SWit.refuted_literal_retype. Qed.
+Print Assumptions C03_sound_refuted_literal_retype.
+
+Theorem C03_sound_refuted_named_int :           (* M == 1, type MyInt int *)
+  in_scope SWit.c false SWit.w_named_int = false /\ SWit.unsound_at SWit.w_named_int.
+Proof. exact SWit.refuted_named_int. Qed.
+Print Assumptions C03_sound_refuted_named_int.
+
+Theorem C03_sound_refuted_nilsafe_on_slice :    (* AI?.x *)
+  in_scope SWit.c false SWit.w_nilsafe_on_slice = false /\ SWit.unsound_at SWit.w_nilsafe_on_slice.
+Proof. exact SWit.refuted_nilsafe_on_slice. Qed.
+Print Assumptions C03_sound_refuted_nilsafe_on_slice.
+
+Theorem C03_sound_refuted_cond_branch :         (* (B ? 1 : nil) + 1 *)
+  in_scope SWit.c false SWit.w_cond_branch = false /\ SWit.unsound_at SWit.w_cond_branch.
+Proof. exact SWit.refuted_cond_branch. Qed.
+Print Assumptions C03_sound_refuted_cond_branch.
+
+Theorem C03_sound_refuted_index_key :           (* AI["a"] *)
+  in_scope SWit.c false SWit.w_index_key = false /\ SWit.unsound_at SWit.w_index_key.
+Proof. exact SWit.refuted_index_key. Qed.
+Print Assumptions C03_sound_refuted_index_key.
+
+Theorem C03_sound_refuted_slice_of_map :        (* MI[1:2] *)
+  in_scope SWit.c false SWit.w_slice_of_map = false /\ SWit.unsound_at SWit.w_slice_of_map.
+Proof. exact SWit.refuted_slice_of_map. Qed.
+Print Assumptions C03_sound_refuted_slice_of_map.
+
+Theorem C03_sound_refuted_builtin_elem :        (* filter(AI, {# > 0}): reported []int, yields []interface{} *)
+  in_scope SWit.c false SWit.w_builtin_elem = false /\ SWit.unsound_at SWit.w_builtin_elem.
+Proof. exact SWit.refuted_builtin_elem. Qed.
+Print Assumptions C03_sound_refuted_builtin_elem.
+
+Theorem C03_sound_refuted_pointer_operand :     (* PI + 1, PI *int *)
+  in_scope SWit.c false SWit.w_pointer_operand = false /\ SWit.unsound_at SWit.w_pointer_operand.
+Proof. exact SWit.refuted_pointer_operand. Qed.
+Print Assumptions C03_sound_refuted_pointer_operand.
+
+Theorem C03_sound_refuted_map_key :             (* {(1): 2} *)
+  in_scope SWit.c false SWit.w_map_key = false /\ SWit.unsound_at SWit.w_map_key.
+Proof. exact SWit.refuted_map_key. Qed.
+Print Assumptions C03_sound_refuted_map_key.
+
+Theorem C03_sound_refuted_nil_argument :        (* Inc(nil) *)
+  in_scope SWit.c false SWit.w_nil_argument = false /\ SWit.unsound_at SWit.w_nil_argument.
+Proof. exact SWit.refuted_nil_argument. Qed.
+Print Assumptions C03_sound_refuted_nil_argument.
+
+Theorem C03_sound_refuted_nil_struct_pointer :  (* P.X, P a nil *Inner: "cannot fetch X from *Inner" *)
+  in_scope SWit.c false SWit.w_nil_struct_pointer = false /\ SWit.unsound_at SWit.w_nil_struct_pointer.
+Proof. exact SWit.refuted_nil_struct_pointer. Qed.
+Print Assumptions C03_sound_refuted_nil_struct_pointer.
+
+(* PROVED, for all expressions, environments of the declared struct type, run states: an accepted
+   expression inside the decidable carve-out never fails for a type reason, and a result has the
+   reported type.  Hypotheses: perm is the iteration order of Go maps (any permutation); wf_tenv is
+   what the Go compiler guarantees of declarations; c_mapenv = false (struct environment);
+   env_ok: the environment is a (pointer to a) struct value of the declared type, well-formed, and
+   the types table is the one CreateTypesTable makes for that type; fenv_ok: the environment
+   functions have their declared signatures, return values of their declared result type and do
+   not fail for a type reason of their own. *)
+Theorem C03_sound_partial :
+  forall (c : cconfig) (perm : TypesTable.table -> TypesTable.table),
+  (forall l, Permutation (perm l) l) -> wf_tenv (cc_te c) = true ->
+  forall ftab nn fe cfg env T sn, c_mapenv cfg = false -> env_ok c perm ftab nn T sn env -> fenv_ok (cc_te c) ftab nn fe ->
+  forall e t e', check c e = (t, e', None) -> in_scope c nn e = true ->
+  forall s, res_ok (cc_te c) ftab nn t (eval fe cfg env [] e' s).
+Proof. exact sound_partial. Qed.
+Print Assumptions C03_sound_partial.
+
+(* AsBool / AsInt64 / AsFloat64: the run yields exactly a bool / an int64 / a float64 (cast_post),
+   and the conversion itself does not fail for a type reason *)
+Theorem C03_cast :
+  forall (c : cconfig) (perm : TypesTable.table -> TypesTable.table),
+  (forall l, Permutation (perm l) l) -> wf_tenv (cc_te c) = true ->
+  forall ftab nn fe cfg env T sn, c_mapenv cfg = false -> env_ok c perm ftab nn T sn env -> fenv_ok (cc_te c) ftab nn fe ->
+  forall e t e' k, check c e = (t, e', None) -> in_scope c nn e = true ->
+  cc_expect c = Some k -> cast_scope k t = true ->
+  match run_ref fe cfg env (cast_of (Some k)) e' with
+  | Done v _ => cast_post k v
+  | Stop er _ _ => is_type_err er = false
+  end.
+Proof. exact cast_kind. Qed.
+Print Assumptions C03_cast.
+
+(* non-vacuity: the universe SWit meets every hypothesis of C03_sound_partial ... *)
+Example C03_sound_hypotheses_hold :
+  (forall l, Permutation (perm_id l) l) /\ wf_tenv (cc_te SWit.c) = true /\ c_mapenv SWit.cfg = false /\
+  env_ok SWit.c perm_id SWit.ftab false (TStruct "Env") "Env" SWit.env /\ fenv_ok (cc_te SWit.c) SWit.ftab false SWit.fe /\
+  env_ok SWit.c perm_id SWit.ftab true (TStruct "Env") "Env" SWit.env2 /\ fenv_ok (cc_te SWit.c) SWit.ftab true SWit.fe.
+Proof.
+  exact (conj SWit.perm_ok (conj SWit.te_wf (conj eq_refl (conj (SWit.env_is_ok None) (conj (SWit.fe_ok false)
+          (conj (SWit.env2_is_ok None) (SWit.fe_ok true))))))).
+Qed.
+
+(* ... and non-trivial expressions are accepted, in scope, and evaluate to a value of the reported type:
+   I + 2 * F > 1.0 ? count(AI, {# > I}) : len(S)   (mixed kinds, comparison, conditional, closure) *)
+Example C03_sound_nonvacuous_mixed : SWit.accepted_in_scope SWit.ex_mixed (TNum KInt) (vint 2).
+Proof. exact SWit.ex_mixed_ok. Qed.
+(* Inc(1) + Twice(I) + In.Get() + In.X + AI[0] + MI["a"] + len(AI[1:2]) *)
+Example C03_sound_nonvacuous_calls : SWit.accepted_in_scope SWit.ex_calls (TNum KInt) (vint 25).
+Proof. exact SWit.ex_calls_ok. Qed.
+(* "a" in MI and S matches "^a" and I in 1..3 and not (S contains "z") and all(AI, {# % 2 == 1}) *)
+Example C03_sound_nonvacuous_bools : SWit.accepted_in_scope SWit.ex_bools TBool (VBool true).
+Proof. exact SWit.ex_bools_ok. Qed.
+(* {"k": [I, S], "n": len(filter(AA, {true}))} *)
+Example C03_sound_nonvacuous_literals :
+  SWit.accepted_in_scope SWit.ex_literals (TMap TString TIface)
+    (VMap TString TIface [(VStr "k", VArr TIface [vint 3; VStr "abc"]); (VStr "n", vint 2)]).
+Proof. exact SWit.ex_literals_ok. Qed.
+(* P.X + P.Get() with P *Inner, in the environment without nil pointers (nn = true) *)
+Example C03_sound_nonvacuous_pointer :
+  in_scope SWit.c true SWit.ex_pointer = true /\ in_scope SWit.c false SWit.ex_pointer = false /\
+  fst (fst (check SWit.c SWit.ex_pointer)) = TNum KInt /\ snd (check SWit.c SWit.ex_pointer) = None /\
+  exists s, eval SWit.fe SWit.cfg SWit.env2 [] (snd (fst (check SWit.c SWit.ex_pointer))) rs0 = Done (vint 18) s.
+Proof. exact SWit.ex_pointer_ok. Qed.
+(* AsInt64 *)
+Example C03_cast_nonvacuous :
+  in_scope (SWit.cc (Some (RKNum KInt64))) false SWit.ex_mixed = true /\
+  snd (check (SWit.cc (Some (RKNum KInt64))) SWit.ex_mixed) = None /\
+  cast_scope (RKNum KInt64) (fst (fst (check (SWit.cc (Some (RKNum KInt64))) SWit.ex_mixed))) = true /\
+  exists s, run_ref SWit.fe SWit.cfg SWit.env CastInt64 (snd (fst (check (SWit.cc (Some (RKNum KInt64))) SWit.ex_mixed)))
+            = Done (VNum (NInt KInt64 2)) s.
+Proof. exact SWit.ex_cast_ok. Qed.
+
+(* ------------------------------------------------------------------------------------------
+   WHERE the error is reported.  first_fault c cols e l (Ty/SoundProofs.v, Part 8): the first node in
+   visiting order that violates a documented rule (root_fault of Ty/CheckProofs.v) is reached
+   through sub-expressions before which nothing fails (step); l is the location the rule is
+   reported at: the node itself, or the operand the rule names (slice bound, builtin collection /
+   closure, condition, refused argument: fault_loc). *)
+Theorem C03_first_error_location : forall c e l, first_fault c [] e l ->
+  exists k, snd (check c e) = Some (l, k) \/
+            (cc_expect c <> None /\ snd (check c e) = Some (noloc, CExpect)).
+Proof. exact first_error_location. Qed.
+Print Assumptions C03_first_error_location.
+
+Theorem C03_first_error_location_plain : forall c e l, cc_expect c = None -> first_fault c [] e l ->
+  exists k, snd (check c e) = Some (l, k).
+Proof. exact first_error_location_plain. Qed.
+Print Assumptions C03_first_error_location_plain.
+
+(* first_fault is a refinement of the reference relation of C03_rejects *)
+Theorem C03_first_fault_is_violation : forall c cols e l, first_fault c cols e l -> ill_typed_ref c cols e.
+Proof. exact first_fault_ill_typed. Qed.
+Print Assumptions C03_first_fault_is_violation.
+
+(* non-vacuity: I + S * 2 (fault at the inner node), count(AI, {Inc(#, 1) > 0}) (fault inside a closure) *)
+Example C03_first_error_location_nonvacuous :
+  first_fault SWit.c [] LWit.e_inner (1%Z, 6%Z) /\ snd (check SWit.c LWit.e_inner) = Some ((1%Z, 6%Z), CMismatch2) /\
+  first_fault SWit.c [] LWit.e_closure (1%Z, 11%Z) /\ snd (check SWit.c LWit.e_closure) = Some ((1%Z, 11%Z), CTooMany).
+Proof. exact (conj LWit.e_inner_fault (conj LWit.e_inner_reported (conj LWit.e_closure_fault LWit.e_closure_reported))). Qed.
